@@ -58,6 +58,7 @@ func Check(p *plan.Plan, r *runner.Result) []Violation {
 		return nil
 	}
 	c.generic()
+	c.reach()
 	c.tapFindings()
 	c.allocBound()
 	switch {
